@@ -248,10 +248,12 @@ func guardWalkStmts2(body *ast.BlockStmt, noret noReturnFunc, visit func(s ast.S
 
 // raiseExceptions: explicit raising constructs that run outside any recover, one reason each.
 var raiseExceptions = map[string]string{
-	"data.NewWith single-value type assertion v.Interface().(time.Time)": "dominated by the test v.Type() == timeType on the preceding line, so the assertion cannot fail",
-	"data.NewWith panic#1":          "\"map keys must be strings\": the property's quantifier ranges over JSON-like values, whose maps are string-keyed",
-	"data.NewWith panic#2":          "\"unexpected data type\": reached only for channels, functions, complex numbers and the like, which are not JSON-like values",
-	"soyhtml.scope.alldata panic#1": "\"impossible\": every scope built by Execute/evalCall has an entered frame (R02c checks that each state is given an enter()ed scope); alldata is only called on such a scope",
+	// keyed by package and the raise's constant message (or the asserted expression), not by the function
+	// that happens to contain it: extracting a helper does not move an exception
+	"data single-value type assertion v.Interface().(time.Time)": "dominated by the test v.Type() == timeType on the preceding line, so the assertion cannot fail",
+	"data panic \"map keys must be strings\"":                    "the property's quantifier ranges over JSON-like values, whose maps are string-keyed",
+	"data panic \"unexpected data type: %T (%v)\"":               "reached only for channels, functions, complex numbers and the like, which are not JSON-like values",
+	"soyhtml panic \"impossible\"":                               "every scope built by Execute/evalCall has an entered frame (R02c checks that each state is given an enter()ed scope); alldata is only called on such a scope",
 }
 
 // R06e: explicit raising constructs that can run before (outside) the entry's recover.
@@ -407,6 +409,19 @@ func ruleR06e(c *Ctx) {
 			ordP++
 			found = true
 			key := fmt.Sprintf("%s panic#%d", c.declKey(rel, fd), ordP)
+			// the raise's constant message identifies it wherever it is moved within the package
+			msg := ""
+			ast.Inspect(call, func(y ast.Node) bool {
+				if e, ok := y.(ast.Expr); ok && msg == "" {
+					if tv, ok := info.Types[e]; ok && tv.Value != nil && tv.Value.Kind() == constant.String {
+						msg = constant.StringVal(tv.Value)
+					}
+				}
+				return true
+			})
+			if msg != "" {
+				key = fmt.Sprintf("%s panic %q", rel, msg)
+			}
 			if why, ok := raiseExceptions[key]; ok {
 				c.ok("R06e", key, call.Pos(), "named exception: "+why)
 			} else {
@@ -419,8 +434,8 @@ func ruleR06e(c *Ctx) {
 				continue
 			}
 			found = true
-			if why, ok := raiseExceptions[c.declKey(rel, fd)+" "+ft.what]; ok {
-				c.ok("R06e", c.declKey(rel, fd)+" "+ft.what, ft.pos, "named exception: "+why)
+			if why, ok := raiseExceptions[rel+" "+ft.what]; ok {
+				c.ok("R06e", rel+" "+ft.what, ft.pos, "named exception: "+why)
 				continue
 			}
 			c.bad("R06e", c.declKey(rel, fd)+" "+ft.what, ft.pos, "unchecked type assertion outside any recover (reached from "+seen[f]+")")
